@@ -5,7 +5,17 @@
 (* NP goroutines ("procs") each make one call.  A call is a record            *)
 (*   [kind: "step"|"signal", step, run, sig, input, beh]                      *)
 (* step  in StepIds or "nostep";  sig = "sig" or "nosig" (signals only);       *)
-(* input in {"va","vb"} (accepted by the input schema) or "inv" (rejected);    *)
+(* input in {"va","vb","vd","vl"} (accepted by the input schema) or "inv"       *)
+(*         (rejected).  "va","vb": raw inputs in normal representation;        *)
+(*         "vd": accepted, but OMITS a property that has a declared default -  *)
+(*         the unserialized value carries the default; "vl": accepted by       *)
+(*         lenient conversion (an int/uint64/float or "5" where an integer, an *)
+(*         integer where a float, "yes" where a bool is declared) - the        *)
+(*         unserialized value is in normal representation.  For every class    *)
+(*         the unserialized value Native(in) is a value different from the raw *)
+(*         input: the handler must get Native(in), whatever Go type the raw    *)
+(*         input has (a step whose input scope is map-based unserializes       *)
+(*         map[string]any to map[string]any: the contract is the same).        *)
 (* beh   = what the step handler returns: "ok" (declared id, conforming data), *)
 (*         "ok2" (second declared id), "undeclared" (undeclared output id),    *)
 (*         "baddata" (declared id, data the output schema rejects).            *)
@@ -32,7 +42,7 @@ Procs == 1..NP
 NoStep == "nostep"
 SigId == "sig"
 NoSig == "nosig"
-ValidInputs == {"va", "vb"}
+ValidInputs == {"va", "vb", "vd", "vl"}
 AllInputs == ValidInputs \cup {"inv"}
 Behs == {"ok", "ok2", "undeclared", "baddata"}
 
@@ -52,7 +62,10 @@ vars == <<call, pc, arg, mutex, created, stepData, initCount, ledger, res>>
 (* The contract as operators *)
 
 \* the unserialized form of an accepted raw input (abstract native value)
-Native(in) == CASE in = "va" -> "nva" [] in = "vb" -> "nvb" [] OTHER -> "none"
+Native(in) == CASE in = "va" -> "nva" [] in = "vb" -> "nvb"
+                [] in = "vd" -> "nvd"      \* raw input plus the declared defaults of the omitted properties
+                [] in = "vl" -> "nvl"      \* raw input with every value converted to its normal representation
+                [] OTHER -> "none"
 Unser(in) == IF in \in ValidInputs THEN [ok |-> TRUE, v |-> Native(in)]
                                    ELSE [ok |-> FALSE, v |-> "none"]
 
